@@ -74,7 +74,7 @@ impl Property for C09 {
         "C09"
     }
     fn rule(&self) -> String {
-        "Cases: ordered pairs (a,b) of operands of any two zoo types/lengths/provenances, with b related to a (independent, equal value at another length, a+-1, 2^m-a, exactly one bit flipped), and lists of same-type vectors to be sorted. Checked: ==,!=,<,<=,>,>=,partial_cmp in BOTH operand orders for the type pairing, Ord::cmp, max, min and clamp for same-type pairs, reflexivity of each operand, mutual consistency; sort() output non-decreasing by value and a permutation of the input. Enumerated: all (n,a,m,b) n,m<=4 (quick)/<=7 (thorough) x 20x20 pairings; long vectors: every length 321..2600 (thorough 8300), 1023..4097 bits on ten pairings, the 70 400-bit fixed type in seven pairings at 7 lengths, and a geometric ladder of lengths around every power of two from 2^14 to 2^21 (thorough 2^24) bits on Bvd/Bv (equal, one bit different at the bottom/middle/top, shorter operands). Oracle: numeric comparison of the zero-extended bit lists. Non-trivial: lengths differ, or values unequal but identical in their most significant non-zero storage word of the wider word type (decision falls to a lower word); equal values of different length are a counted class. Distinct by hash of the case.".into()
+        "Cases: ordered pairs (a,b) of operands of any two zoo types/lengths/provenances, with b related to a (independent, equal value at another length, a+-1, 2^m-a, exactly one bit flipped), and lists of same-type vectors to be sorted. Checked: ==,!=,<,<=,>,>=,partial_cmp in BOTH operand orders for the type pairing, Ord::cmp, max, min and clamp for same-type pairs, reflexivity of each operand, mutual consistency; sort() output non-decreasing by value and a permutation of the input. Enumerated: all (n,a,m,b) n,m<=4 (quick)/<=7 (thorough) x 20x20 pairings; long vectors: every length 321..2600 (thorough 8300), 1023..4097 bits on ten pairings, a one-bit difference placed in every 64-bit word in turn at lengths 2601..8300 (step 61; thorough 7), the 70 400-bit fixed type in seven pairings at 7 lengths, and a geometric ladder of lengths around every power of two from 2^14 to 2^21 (thorough 2^24) bits on Bvd/Bv (equal, one bit different at the bottom/middle/top, shorter operands). Oracle: numeric comparison of the zero-extended bit lists. Non-trivial: lengths differ, or values unequal but identical in their most significant non-zero storage word of the wider word type (decision falls to a lower word); equal values of different length are a counted class. Distinct by hash of the case.".into()
     }
     fn random_cases(&self, tier: Tier) -> u64 {
         tier.pick(300000, 9600000)
@@ -255,6 +255,24 @@ impl Property for C09 {
                     if !f(C09Case::Pair { a: Operand::canon(lt, a.clone()), b: Operand::canon(rt, b) }) {
                         return;
                     }
+                }
+            }
+        }
+        // a difference confined to ONE 64-bit word, for every word of the vector: lengths from
+        // 2601 to 8300 bits (step 61 in the quick tier, 7 in the thorough tier) - a comparison
+        // that walks the words in blocks must look at every one of them
+        for n in (2601..=8300usize).step_by(tier.pick(61, 7)) {
+            if !sh.mine() {
+                continue;
+            }
+            let (lt, rt) = [(TID_D, TID_D), (TID_A, TID_A), (TID_D, TID_A), (TID_A, TID_D)][n % 4];
+            let a = dense_value(n);
+            for w in 0..(n + 63) / 64 {
+                let i = (w * 64 + (n + w) % 64).min(n - 1);
+                let mut b = a.clone();
+                b.0[i] = !b.0[i];
+                if !f(C09Case::Pair { a: Operand::canon(lt, a.clone()), b: Operand::canon(rt, b) }) {
+                    return;
                 }
             }
         }
